@@ -31,11 +31,12 @@ where the Python code would raise.  Proved here (for every text, session, nested
   class-name, marker, term and definition groups of every line-block, list and delimited-block rule and of every
   redefinable delimited-block table a session can hold), no `params[0]`, `opt[0]`, `match[1][0]`, `match[0][0]` (line,
   list and non-paragraph block rules) indexes an empty string, the reader is never read at end of input, the stack of open
-  list ids is never popped when empty, the quote that the quote pattern captures is a non-empty quote of the table, the
+  list ids is never popped when empty, `int()` accepts the digits of every `$n` (`Regex/Digits.lean`: the table of decimal
+  digits that `int()` uses covers `\d`), the quote that the quote pattern captures is a non-empty quote of the table, the
   close tag of a block definition is never `None`.  `not_residual_examples` lists them as corollaries.
 
 Not excluded (`residual`, each named by its site): the placeholder queue (`savedReplacements.pop(0)`, needs the
-placeholder accounting of `spans.render`; cf. C16), `int()` on the digits of `$n` (needs the digit table), the three
+placeholder accounting of `spans.render`; cf. C16), the three
 assertions `m is not None` and `match[0][0]` of a paragraph (need completeness of the matcher), the filter groups of a
 default replacement definition whose pattern text a document re-compiled (`htmlSafeModeFilter(match[1])`,
 `entity match[1]`).  For these the correspondence check (same exception kind or none on both sides) is what decides.
@@ -274,7 +275,8 @@ theorem not_residual_examples :
     ¬ Allowed (.indexError "match[0][0] list") ∧ ¬ Allowed (.indexError "match[0][0] block") ∧
     ¬ Allowed (.assertion "not self.eof()") ∧ ¬ Allowed (.indexError "reader.lines[pos:pos]") ∧
     ¬ Allowed (.indexError "group") ∧ ¬ Allowed (.indexError "no such group") ∧ ¬ Allowed (.indexError "quote[0]") ∧
-    ¬ Allowed (.assertion "qdef is not None") ∧ ¬ Allowed (.indexError "ids.pop()") := by
+    ¬ Allowed (.assertion "qdef is not None") ∧ ¬ Allowed (.indexError "ids.pop()") ∧
+    ¬ Allowed (.valueError "int(mr[2])") ∧ ¬ Allowed (.valueError "int(m[2])") := by
   decide
 
 /-- the outcomes that are allowed and are not Python exceptions -/
